@@ -542,6 +542,35 @@ fn cmd_sched(args: &[String]) {
         cases: Vec<Case>,
         #[serde(default)]
         schedule: Vec<usize>,
+        /// barrier mode: every thread runs `rounds` calls and all threads leave the named sync point of each round together (true parallelism
+        /// inside the phase that follows it)
+        #[serde(default)]
+        barrier: Option<String>,
+        #[serde(default)]
+        rounds: usize,
+    }
+    struct SpinBarrier {
+        n: usize,
+        count: std::sync::atomic::AtomicUsize,
+        generation: std::sync::atomic::AtomicUsize,
+    }
+    impl SpinBarrier {
+        fn wait(&self) {
+            use std::sync::atomic::Ordering::*;
+            let g = self.generation.load(Acquire);
+            if self.count.fetch_add(1, AcqRel) + 1 >= self.n {
+                self.count.store(0, Release);
+                self.generation.fetch_add(1, Release);
+            } else {
+                let t0 = std::time::Instant::now();
+                while self.generation.load(Acquire) == g {
+                    std::hint::spin_loop();
+                    if t0.elapsed() > std::time::Duration::from_secs(3) {
+                        break;
+                    }
+                }
+            }
+        }
     }
     struct Turn {
         pos: usize,
@@ -558,6 +587,43 @@ fn cmd_sched(args: &[String]) {
         }
         let g: Group = serde_json::from_str(&line).expect("group");
         let n = g.cases.len();
+        if let Some(bp) = g.barrier.clone() {
+            let rounds = g.rounds.max(1);
+            let bar = Arc::new(SpinBarrier { n, count: Default::default(), generation: Default::default() });
+            let mut handles = vec![];
+            for case in g.cases.iter().cloned() {
+                let bar = bar.clone();
+                let bp = bp.clone();
+                handles.push(std::thread::spawn(move || {
+                    let src = case_src(&case);
+                    let mut res = vec![];
+                    for _ in 0..rounds {
+                        let (b2, p2) = (bar.clone(), bp.clone());
+                        wgsl_to_wgpu::verif::set_sync(Some(Box::new(move |point: &str| {
+                            if point == p2 {
+                                b2.wait();
+                            }
+                        })));
+                        let oc = call_generator(&src, &case.opts, 0, 50_000_000);
+                        wgsl_to_wgpu::verif::set_sync(None);
+                        res.push(oc);
+                    }
+                    (case, src, res)
+                }));
+            }
+            for (ti, h) in handles.into_iter().enumerate() {
+                let (case, src, res) = h.join().expect("thread");
+                for (r, oc) in res.iter().enumerate() {
+                    let id = format!("{}-t{}-r{}", g.id, ti + 1, r);
+                    writeln!(out, "{}", tlc_safe(case_event(&case, &id, &src, "barrier"))).unwrap();
+                    writeln!(out, "{}", tlc_safe(obs_min(&id, oc))).unwrap();
+                }
+            }
+            if !counting_hook_still_installed() {
+                writeln!(out, "{}", json!({"ev": "envstate", "id": g.id, "ok": false, "what": "the panic hook of the process was replaced while the calls ran"})).unwrap();
+            }
+            continue;
+        }
         let sched = Arc::new(g.schedule.clone());
         let state = Arc::new((Mutex::new(Turn { pos: 0, done: vec![false; n + 1], order: vec![] }), Condvar::new()));
         let mut handles = vec![];
